@@ -34,6 +34,8 @@ def run(ctx):
         # all paths / random walks with the attribute checks only
         w2 = Walker(ctx, g, dc.DomainAdapter(info, s, ctx.seed, heavy=False), fam)
         npaths, complete = w2.all_paths(steps + 1, budget=200000)
+        from harness.graph import blind_walks
+        blind_walks(w, 400 if thorough else 60, steps + 2, ctx.seed)        # several configuration steps, nothing read or transformed in between
         ctx.stage(fam, graph_states=len(g.state), graph_edges=g.n_edges, edges_replayed=ne,
                   transform_batteries=heavy_batteries, paths=npaths, paths_complete=complete,
                   real_calls=w.steps + w2.steps)
